@@ -198,8 +198,11 @@ class Update(Message):
                     return EOR(unreach.afi, unreach.safi)
                 if reach is not None and isinstance(reach, MPRNLRI):
                     return EOR(reach.afi, reach.safi)
-            # No MP attributes - this is IPv4 unicast EOR
-            return EOR(AFI.ipv4, SAFI.unicast)
+            if not attr_view:
+                # No attributes at all - this is the IPv4 unicast EOR
+                return EOR(AFI.ipv4, SAFI.unicast)
+            # attributes were present but none was kept (unrecognised optional non-transitive
+            # ones are not relayed): an UPDATE without routes, not an End-of-RIB marker
 
         def log_parsed(_: object) -> str:
             # we need the import in the function as otherwise we have an cyclic loop
